@@ -1,6 +1,7 @@
 /- Operation table of the model driver: one import and one `++` entry per ops module
    (regenerate with tools/gen_table.py after adding a module). -/
 import Driver.Ops.C03
+import Driver.Ops.C04
 import Driver.Ops.C06
 import Driver.Ops.C07
 import Driver.Ops.C12
@@ -8,12 +9,14 @@ import Driver.Ops.C15
 import Driver.Ops.C17
 import Driver.Ops.C18
 import Driver.Ops.C19
+import Driver.Ops.C20
 import Driver.Ops.Std
 namespace ZVD
 
 def allOps : OpTable :=
   [("ping", fun _ => pure "ok pong")]
   ++ opsC03
+  ++ opsC04
   ++ opsC06
   ++ opsC07
   ++ opsC12
@@ -21,6 +24,7 @@ def allOps : OpTable :=
   ++ opsC17
   ++ opsC18
   ++ opsC19
+  ++ opsC20
   ++ opsStd
 
 def dispatch (op : String) (a : Args) : Except String String :=
